@@ -357,12 +357,25 @@ func FormatEmail(s string) Tri {
 
 var reURIYes = regexp.MustCompile(`^[a-z][a-z0-9]*://[A-Za-z0-9]+([.-][A-Za-z0-9]+)*(:\d{1,4})?(/[A-Za-z0-9._~-]*)*(\?[A-Za-z0-9=&._~-]*)?$`)
 
+var reURIAuthority = regexp.MustCompile(`^[a-z][a-z0-9]*://([^/?#]*)`)
+var reURIPortOnly = regexp.MustCompile(`^(:[0-9]*)?$`)
+
 func FormatURI(s string) Tri {
 	if reURIYes.MatchString(s) {
 		return Yes
 	}
 	if s == "" || !strings.Contains(s, ":") || strings.HasPrefix(s, "/") || strings.HasSuffix(s, "://") {
 		return No // empty, no scheme, relative reference, scheme without host
+	}
+	if m := reURIAuthority.FindStringSubmatch(s); m != nil {
+		// scheme://authority...: an authority that is only user info and/or a port names no host
+		auth := m[1]
+		if i := strings.LastIndexByte(auth, '@'); i >= 0 {
+			auth = auth[i+1:]
+		}
+		if reURIPortOnly.MatchString(auth) {
+			return No
+		}
 	}
 	return Unknown
 }
